@@ -103,6 +103,13 @@ def do_run(sid: str, props: list[str], in_repo: bool = False) -> int:
         tmp = tempfile.mkdtemp(prefix="seedrun-")
         shutil.copytree("/repo/src", f"{tmp}/src")
         rc, out = sh(f"patch -p1 -s < {d / 'patch.diff'}", cwd=tmp)
+        if rc != 0 and (d / "patch.rebased.diff").exists():
+            # later fix: commits moved the code the seed touches; the same change, re-made by hand on HEAD
+            shutil.rmtree(tmp, ignore_errors=True)
+            tmp = tempfile.mkdtemp(prefix="seedrun-")
+            shutil.copytree("/repo/src", f"{tmp}/src")
+            rc, out = sh(f"patch -p1 -s < {d / 'patch.rebased.diff'}", cwd=tmp)
+            meta["rebased"] = True
         if rc != 0:
             print("patch does not apply:", out)
             shutil.rmtree(tmp, ignore_errors=True)
